@@ -673,6 +673,9 @@ func vfBuildFrames(ex vfExchange) ([]vfWireFrame, map[int]uint32) {
 // side): bytes of one direction are flushed in drawn chunks whenever the
 // direction changes, so causality between the directions is preserved while
 // the partition into Read/Write calls is arbitrary.
+// vfBeforeClose, when set, runs after the last frame of an exchange and before the connection is closed.
+var vfBeforeClose func()
+
 func vfRunExchange(ex vfExchange, cuts [2][]int) ([]Trace, error) {
 	frames, _ := vfBuildFrames(ex)
 	coll := &vfCollector{}
@@ -739,6 +742,9 @@ func vfRunExchange(ex vfExchange, cuts [2][]int) ([]Trace, error) {
 	}
 	if err := flush(1 - cur); err != nil {
 		return nil, err
+	}
+	if vfBeforeClose != nil {
+		vfBeforeClose()
 	}
 	_ = conn.Close()
 	var all []byte
